@@ -1667,6 +1667,72 @@ fn cold_child(threads: usize, seed: u64) {
     eprintln!("cold-ok");
 }
 
+/// Deep unification on all threads at once: every thread, in its own context, infers
+/// `pair (take^k iden) (take^k iden)` (types nested k deep) at the same moment, several rounds; the
+/// result must be the sequential one.  Steady-state cross-talk between contexts (anything counted
+/// or cached per process rather than per context) shows here.
+fn deep_inference_hammer(ctx: &mut Ctx) {
+    fn infer_deep(k: usize) -> String {
+        let mut nodes = vec![PNode::Iden];
+        for i in 0..k {
+            nodes.push(PNode::Take(i));
+        }
+        let a = nodes.len() - 1;
+        nodes.push(PNode::Iden);
+        let base = nodes.len() - 1;
+        for i in 0..k {
+            nodes.push(PNode::Take(base + i));
+        }
+        let b = nodes.len() - 1;
+        nodes.push(PNode::Pair(a, b));
+        match gen::commit_of_plan(&Plan { nodes }, None, false) {
+            Ok(c) => format!("ok {} {} {}", c.cmr(), c.arrow().source.tmr(), c.arrow().target.tmr()),
+            Err(e) => format!("err {}", e.to_string().chars().take(80).collect::<String>()),
+        }
+    }
+    let ks = [120usize, 350, 600];
+    let seq: Vec<String> = ks.iter().map(|k| infer_deep(*k)).collect();
+    let threads = 16usize;
+    let rounds = ctx.scale(6, 40) as usize;
+    let barrier = Arc::new(Barrier::new(threads));
+    let hs: Vec<_> = (0..threads)
+        .map(|t| {
+            let barrier = barrier.clone();
+            let seq = seq.clone();
+            std::thread::Builder::new()
+                .stack_size(32 << 20)
+                .spawn(move || -> Option<String> {
+                    let mut bad = None;
+                    for r in 0..rounds {
+                        for (i, k) in ks.iter().enumerate() {
+                            barrier.wait();
+                            let got = infer_deep(*k);
+                            if got != seq[i] && bad.is_none() {
+                                bad = Some(format!("thread {t} round {r}: inference of pair (take^{k} iden) (take^{k} iden) gives `{}` under 16 threads, sequentially `{}`", &got[..got.len().min(160)], &seq[i][..seq[i].len().min(160)]));
+                            }
+                        }
+                    }
+                    bad
+                })
+                .expect("spawn")
+        })
+        .collect();
+    let case = format!("deepinfer {threads} {rounds}");
+    ctx.case(Some(&case));
+    let mut first = None;
+    for h in hs {
+        match h.join() {
+            Ok(Some(m)) => first = first.or(Some(m)),
+            Ok(None) => {}
+            Err(_) => first = first.or(Some("a thread panicked".into())),
+        }
+    }
+    match first {
+        Some(m) => ctx.fail("result-differs-under-threads", &case, &m),
+        None => ctx.count("reach:deep-inference-hammer"),
+    }
+}
+
 fn cold_starts(ctx: &mut Ctx) {
     let Ok(exe) = std::env::current_exe() else { return ctx.note("cold start: no current_exe") };
     for k in 0..ctx.scale(12, 120) {
@@ -1708,6 +1774,7 @@ fn cold_starts(ctx: &mut Ctx) {
 pub fn run(ctx: &mut Ctx) {
     // before anything touches the tables in this process: fresh processes whose first use is concurrent
     cold_starts(ctx);
+    deep_inference_hammer(ctx);
     let pools = jet_pools();
     // the memo table, once on the main thread, against the static table
     for n in 0..32 {
@@ -1817,6 +1884,10 @@ fn parse_case(case: &str) -> Option<(CaseSpec, Vec<(u64, String)>)> {
 
 pub fn replay(ctx: &mut Ctx, case: &str) {
     let toks: Vec<&str> = case.split_whitespace().collect();
+    if let ["deepinfer", ..] = toks.as_slice() {
+        deep_inference_hammer(ctx);
+        return;
+    }
     if let ["cold", th, seed] = toks.as_slice() {
         if let (Ok(th), Ok(seed)) = (th.parse::<usize>(), seed.parse::<u64>()) {
             cold_child(th.clamp(1, 64), seed);
